@@ -340,6 +340,12 @@ class Printer:
                 out.append('%s: %s' % (self.prop_name(self.fld(y, 'key')), self.expr(self.fld(y, 'value'))))
             elif pk == 'Shorthand':
                 out.append(self.s(self.fld(y, 'sym')))
+            elif pk == 'Method':
+                f = self.box(self.fld(y, 'function'))
+                params = ', '.join(self.pat(self.fld(x2, 'pat')) for x2 in self.items(self.fld(f, 'params')))
+                body = self.opt(self.fld(f, 'body'))
+                pre = ('async ' if self.ev(self.fld(f, 'is_async')) else '') + ('*' if self.ev(self.fld(f, 'is_generator')) else '')
+                out.append('%s%s(%s) %s' % (pre, self.prop_name(self.fld(y, 'key')), params, self.block(body) if body is not None else '{}'))
             else:
                 raise ValueError('printer: Prop::%s' % pk)
         return '{' + ', '.join(out) + '}'
